@@ -200,18 +200,27 @@ Qed.
 (* ------------------------------------------------------------------ *)
 (* shared ownership: the collection at the end of an operation          *)
 
-(* a key below 2000 denotes a trackable, the key [sig_key g] the signal object g *)
+(* a key below 2000 denotes a trackable, the key [sig_key g] the signal object g (g < 2000), the key
+   [conn_key c] the connection object c *)
 Lemma key_live_track k st : k < 2000 -> (key_live k st = true <-> live_track k st <> None).
 Proof.
-  intro Hk. unfold key_live. destruct (N.leb_spec 2000 k); [lia|].
+  intro Hk. unfold key_live. destruct (N.leb_spec 4000 k); [lia|]. destruct (N.leb_spec 2000 k); [lia|].
   destruct (live_track k st); split; intro X; try reflexivity; try discriminate. contradiction.
 Qed.
 
-Lemma key_live_sig g st : key_live (sig_key g) st = true <-> live_sig g st <> None.
+Lemma key_live_sig g st : g < 2000 -> (key_live (sig_key g) st = true <-> live_sig g st <> None).
 Proof.
-  unfold key_live, sig_key. destruct (N.leb_spec 2000 (2000 + g)); [|lia].
+  intro Hg. unfold key_live, sig_key. destruct (N.leb_spec 4000 (2000 + g)); [lia|].
+  destruct (N.leb_spec 2000 (2000 + g)); [|lia].
   replace (2000 + g - 2000) with g by lia.
   destruct (live_sig g st); split; intro X; try reflexivity; try discriminate. contradiction.
+Qed.
+
+Lemma key_live_conn c st : key_live (conn_key c) st = true <-> get_connptr (WC c) st <> None.
+Proof.
+  unfold key_live, conn_key. destruct (N.leb_spec 4000 (4000 + c)); [|lia].
+  replace (4000 + c - 4000) with c by lia.
+  destruct (get_connptr (WC c) st); split; intro X; try reflexivity; try discriminate. contradiction.
 Qed.
 
 Lemma find_orphan_some prog l st t : find_orphan prog l st = Some t ->
@@ -242,7 +251,10 @@ Proof.
   induction fuel as [|fuel IH]; intros st st' E; cbn [gc] in E.
   - destruct (find_orphan prog (shared st) st) eqn:Hfo; [discriminate|]. inversion E; subst st'. exact Hfo.
   - destruct (find_orphan prog (shared st) st) eqn:Hfo; [|inversion E; subst st'; exact Hfo].
-    destruct (N.leb 2000 n).
+    destruct (N.leb 4000 n); [|destruct (N.leb 2000 n)].
+    + destruct (get_connptr (WC (n - 4000)) st) as [p|]; [|discriminate].
+      destruct (watch_remove p (WC (n - 4000)) st) as [st1|e]; cbn [rbind] in E; [|discriminate].
+      eapply IH; eauto.
     + destruct (live_sig (n - 2000) st) as [go|]; [|discriminate].
       destruct (sig_destroy (n - 2000) go st) as [st1|e]; cbn [rbind] in E; [|discriminate].
       eapply IH; eauto.
@@ -254,7 +266,8 @@ Lemma is_released_shared t st st' : shared st' = shared st -> is_released t st' 
 Proof. intro E. unfold is_released. rewrite E. reflexivity. Qed.
 
 (* what the collection destroys, among the objects the table of shared objects can name (user
-   trackables, keys below 1000, and signal objects, keys from 2000 on), was released and listed *)
+   trackables, keys below 1000, signal objects, keys from 2000 on, and connection objects, keys from
+   4000 on), was released and listed *)
 Lemma gc_dead prog : forall fuel st st', WF st -> NoDup (map fst (shared st)) -> gc prog fuel st = Ok st' ->
   shared st' = shared st /\
   forall k, k < 1000 \/ 2000 <= k -> key_live k st = true -> key_live k st' = false ->
@@ -271,24 +284,54 @@ Proof.
     (* one step of the collection kills the key t0 and no other nameable key *)
     assert (Hstep : exists st2, gc prog fuel st2 = Ok st' /\ WF st2 /\ shared st2 = shared st /\
               forall k, k < 1000 \/ 2000 <= k -> key_live k st = true -> key_live k st2 = false -> k = t0).
-    { destruct (N.leb_spec 2000 t0) as [Hge|Hlt].
-      - unfold key_live in Hlive. destruct (N.leb_spec 2000 t0) as [_|]; [|lia].
+    { destruct (N.leb_spec 4000 t0) as [Hge4|Hlt4]; [|destruct (N.leb_spec 2000 t0) as [Hge|Hlt]].
+      - unfold key_live in Hlive. destruct (N.leb_spec 4000 t0) as [_|]; [|lia].
+        destruct (get_connptr (WC (t0 - 4000)) st) as [p|] eqn:Hp; [|discriminate].
+        destruct (conn_destroy_full (t0 - 4000) p st H Hp) as (st1 & E1 & C & P & G).
+        rewrite E1 in E. cbn [rbind] in E.
+        set (st2 := with_conns (aset (t0 - 4000) None (conns st1)) st1) in *.
+        exists st2. split; [exact E|]. split; [exact (proj1 G)|]. split; [exact (ca_shared _ _ C)|].
+        intros k Hk A B. unfold key_live in A, B.
+        destruct (N.leb_spec 4000 k) as [Hk4|Hk4]; [|destruct (N.leb_spec 2000 k) as [Hk2|Hk2]].
+        + unfold st2 in B. cbn [get_connptr conns with_conns] in B.
+          destruct (N.eqb_spec (k - 4000) (t0 - 4000)) as [X|Hne]; [lia|exfalso].
+          rewrite aget_aset_other in B by exact Hne.
+          pose proof (P (WC (k - 4000))) as Q. cbn [get_connptr] in Q. rewrite Q in B.
+          cbn [get_connptr] in A. rewrite B in A. discriminate.
+        + exfalso. unfold live_sig, st2 in B. cbn [sigs with_conns] in B. rewrite (ca_sigs _ _ C) in B.
+          unfold live_sig in A. rewrite B in A. discriminate.
+        + exfalso. assert (X : live_track k st1 <> None).
+          { apply (tlive_live st st1 k (ca_tracks _ _ C)). destruct (live_track k st); [discriminate|discriminate A]. }
+          change (live_track k st2) with (live_track k st1) in B.
+          destruct (live_track k st1); [discriminate B|contradiction].
+      - unfold key_live in Hlive. destruct (N.leb_spec 4000 t0) as [|_]; [lia|]. destruct (N.leb_spec 2000 t0) as [_|]; [|lia].
         destruct (live_sig (t0 - 2000) st) as [go|] eqn:Hl; [|discriminate].
         destruct (sig_destroy_full (t0 - 2000) go st H Hl) as (st1 & E1 & G & Hsh & Hsg & _ & Htr).
         rewrite E1 in E. cbn [rbind] in E.
         exists st1. split; [exact E|]. split; [exact (proj1 G)|]. split; [exact Hsh|].
-        intros k Hk A B. unfold key_live in A, B. destruct (N.leb_spec 2000 k) as [Hk2|Hk2].
+        intros k Hk A B. unfold key_live in A, B.
+        destruct (N.leb_spec 4000 k) as [Hk4|Hk4]; [|destruct (N.leb_spec 2000 k) as [Hk2|Hk2]].
+        + exfalso. assert (X : get_connptr (WC (k - 4000)) st1 <> None).
+          { apply (cmono_dom st st1 _ (sig_destroy_cm _ _ _ _ E1)). destruct (get_connptr (WC (k - 4000)) st); [discriminate|discriminate A]. }
+          destruct (get_connptr (WC (k - 4000)) st1); [discriminate B|contradiction].
         + rewrite Hsg in B. destruct (N.eqb_spec (k - 2000) (t0 - 2000)) as [X|_]; [lia|].
           rewrite B in A. discriminate.
         + exfalso. assert (Hk1 : k < 1000) by (destruct Hk; [assumption|lia]).
           assert (X : live_track k st1 <> None).
           { apply Htr; [unfold trackable_of_sig; lia|]. destruct (live_track k st); [discriminate|discriminate A]. }
           destruct (live_track k st1); [discriminate B|contradiction].
-      - assert (Ht' : t0 < 1000) by (destruct Ht as [|[]]; [assumption|lia]).
-        destruct (del_user_track_G t0 st H Ht') as (st1 & E1 & C & G). rewrite E1 in E. cbn [rbind] in E.
+      - assert (Ht' : t0 < 1000) by (destruct Ht as [|[[]|[]]]; [assumption|lia|lia]).
+        destruct (track_notify_G t0 st H) as (st1 & E1 & _ & C & _).
+        destruct (del_user_track_G t0 st H Ht') as (st1' & E1' & _ & G). rewrite E1 in E1'. inversion E1'; subst st1'.
+        rewrite E1 in E. cbn [rbind] in E.
         set (st2 := with_tracks (aset t0 None (tracks st1)) st1) in *.
         exists st2. split; [exact E|]. split; [exact (proj1 G)|]. split; [exact (ca_shared _ _ C)|].
-        intros k Hk A B. unfold key_live in A, B. destruct (N.leb_spec 2000 k) as [Hk2|Hk2].
+        intros k Hk A B. unfold key_live in A, B.
+        destruct (N.leb_spec 4000 k) as [Hk4|Hk4]; [|destruct (N.leb_spec 2000 k) as [Hk2|Hk2]].
+        + exfalso. assert (X : get_connptr (WC (k - 4000)) st1 <> None).
+          { apply (cmono_dom st st1 _ (track_notify_cm _ _ _ E1)). destruct (get_connptr (WC (k - 4000)) st); [discriminate|discriminate A]. }
+          change (get_connptr (WC (k - 4000)) st2) with (get_connptr (WC (k - 4000)) st1) in B.
+          destruct (get_connptr (WC (k - 4000)) st1); [discriminate B|contradiction].
         + exfalso. unfold live_sig, st2 in B. cbn [sigs with_tracks] in B. rewrite (ca_sigs _ _ C) in B.
           unfold live_sig in A. rewrite B in A. discriminate.
         + unfold st2 in B. rewrite live_track_aset in B. destruct (N.eqb_spec k t0) as [X|Hne]; [exact X|exfalso].
@@ -329,9 +372,16 @@ Proof.
   assert (Z : false = true) by (apply (proj2 X); discriminate). discriminate.
 Qed.
 
-Lemma key_live_false_sig g st : key_live (sig_key g) st = false <-> live_sig g st = None.
+Lemma key_live_false_sig g st : g < 2000 -> (key_live (sig_key g) st = false <-> live_sig g st = None).
 Proof.
-  pose proof (key_live_sig g st) as X. destruct (key_live (sig_key g) st), (live_sig g st);
+  intro Hg. pose proof (key_live_sig g st Hg) as X. destruct (key_live (sig_key g) st), (live_sig g st);
+    split; intro Y; try reflexivity; try discriminate; exfalso; [apply (proj1 X); [reflexivity|exact Y]|].
+  assert (Z : false = true) by (apply (proj2 X); discriminate). discriminate.
+Qed.
+
+Lemma key_live_false_conn c st : key_live (conn_key c) st = false <-> get_connptr (WC c) st = None.
+Proof.
+  pose proof (key_live_conn c st) as X. destruct (key_live (conn_key c) st), (get_connptr (WC c) st);
     split; intro Y; try reflexivity; try discriminate; exfalso; [apply (proj1 X); [reflexivity|exact Y]|].
   assert (Z : false = true) by (apply (proj2 X); discriminate). discriminate.
 Qed.
@@ -353,18 +403,33 @@ Proof.
   - intros Hl Hr _. apply B; [apply key_live_track; assumption|exact Hr].
 Qed.
 
-(* the same for a signal object co-owned by functor copies *)
+(* the same for a signal object co-owned by functor copies (a key from 4000 on names a connection
+   object, so the signal objects that the table can name are the g < 2000; OGShare takes g < 1000) *)
 Lemma shared_signal_lifetime :
-  forall prog st st' g, WF st -> NoDup (map fst (shared st)) -> gc_shared prog st = Ok st' ->
+  forall prog st st' g, WF st -> NoDup (map fst (shared st)) -> gc_shared prog st = Ok st' -> g < 2000 ->
     (live_sig g st <> None -> live_sig g st' = None ->
        is_released (sig_key g) st = true /\ In (sig_key g) (map fst (shared st))) /\
     (live_sig g st' <> None -> is_released (sig_key g) st' = true -> 0 < owner_count prog (sig_key g) st').
 Proof.
-  intros prog st st' g H Hnd E.
+  intros prog st st' g H Hnd E Hg.
   assert (Hk : sig_key g < 1000 \/ 2000 <= sig_key g) by (right; unfold sig_key; lia).
   destruct (shared_key_lifetime prog st st' (sig_key g) H Hnd E Hk) as (A & B). split.
   - intros Hl Hl'. apply A; [apply key_live_sig; assumption|apply key_live_false_sig; assumption].
   - intros Hl Hr. apply B; [apply key_live_sig; assumption|exact Hr].
+Qed.
+
+(* and for a connection object co-owned by functor copies *)
+Lemma shared_connection_lifetime :
+  forall prog st st' c, WF st -> NoDup (map fst (shared st)) -> gc_shared prog st = Ok st' ->
+    (get_connptr (WC c) st <> None -> get_connptr (WC c) st' = None ->
+       is_released (conn_key c) st = true /\ In (conn_key c) (map fst (shared st))) /\
+    (get_connptr (WC c) st' <> None -> is_released (conn_key c) st' = true -> 0 < owner_count prog (conn_key c) st').
+Proof.
+  intros prog st st' c H Hnd E.
+  assert (Hk : conn_key c < 1000 \/ 2000 <= conn_key c) by (right; unfold conn_key; lia).
+  destruct (shared_key_lifetime prog st st' (conn_key c) H Hnd E Hk) as (A & B). split.
+  - intros Hl Hl'. apply A; [apply key_live_conn; assumption|apply key_live_false_conn; assumption].
+  - intros Hl Hr. apply B; [apply key_live_conn; assumption|exact Hr].
 Qed.
 
 (* the second conjunct needs no side condition on the state (a key from 2000 on names a signal
@@ -379,12 +444,21 @@ Proof.
 Qed.
 
 Lemma shared_signal_kept_while_owned :
-  forall prog st st' g, gc_shared prog st = Ok st' ->
+  forall prog st st' g, gc_shared prog st = Ok st' -> g < 2000 ->
     live_sig g st' <> None -> is_released (sig_key g) st' = true -> 0 < owner_count prog (sig_key g) st'.
 Proof.
-  intros prog st st' g E Hl Hr. pose proof (gc_result prog _ st st' E) as Hfo.
+  intros prog st st' g E Hg Hl Hr. pose proof (gc_result prog _ st st' E) as Hfo.
   unfold is_released in Hr. destruct (aget (sig_key g) (shared st')) as [[|]|] eqn:Ha; try discriminate.
-  pose proof (find_orphan_none prog _ _ Hfo _ (aget_in _ _ _ Ha) (proj2 (key_live_sig g st') Hl)). lia.
+  pose proof (find_orphan_none prog _ _ Hfo _ (aget_in _ _ _ Ha) (proj2 (key_live_sig g st' Hg) Hl)). lia.
+Qed.
+
+Lemma shared_connection_kept_while_owned :
+  forall prog st st' c, gc_shared prog st = Ok st' ->
+    get_connptr (WC c) st' <> None -> is_released (conn_key c) st' = true -> 0 < owner_count prog (conn_key c) st'.
+Proof.
+  intros prog st st' c E Hl Hr. pose proof (gc_result prog _ st st' E) as Hfo.
+  unfold is_released in Hr. destruct (aget (conn_key c) (shared st')) as [[|]|] eqn:Ha; try discriminate.
+  pose proof (find_orphan_none prog _ _ Hfo _ (aget_in _ _ _ Ha) (proj2 (key_live_conn c st') Hl)). lia.
 Qed.
 
 (* machine-checked counterexample to the unrestricted statement *)
@@ -442,4 +516,6 @@ Print Assumptions shared_trackable_lifetime_partial.
 Print Assumptions shared_trackable_kept_while_owned.
 Print Assumptions shared_signal_lifetime.
 Print Assumptions shared_signal_kept_while_owned.
+Print Assumptions shared_connection_lifetime.
+Print Assumptions shared_connection_kept_while_owned.
 Print Assumptions shared_trackable_lifetime_false.
